@@ -263,36 +263,75 @@ func checkC12(w *World, r *Report) {
 		r.Check(strings.Join(tw, ",") == "newNodeByType", "R12.2", "writers of node.tree", token.NoPos, "newNodeByType only", "the defining tree of a node is written by {"+strings.Join(tw, ",")+"}: prefixes inside copied statements would resolve through the wrong module")
 		cl := w.Method("parse", "node", "Clone")
 		cfd, _ := w.FuncDecl(cl)
-		mParam := paramObj(pp, cfd, 0)
-		setsUse, recurses := false, false
-		for _, a := range assignsToField(pp, cfd.Body, useTree) {
-			if as, ok := a.(*ast.AssignStmt); ok {
-				ast.Inspect(as.Rhs[0], func(x ast.Node) bool {
-					if id, ok := x.(*ast.Ident); ok && pp.TypesInfo.Uses[id] == mParam {
-						setsUse = true
+		cloneI := w.interfaceMethod("parse", "Node", "Clone")
+		setsUse, recurses, copiesStruct := false, false, false
+		if cf := w.SSAFunc(cl); cf != nil && len(cf.Params) == 2 {
+			recv, mPar := cf.Params[0], cf.Params[1]
+			// the value comes from the module handed in: through assertions, field reads and locals
+			var fromM func(v ssa.Value, d int) bool
+			fromM = func(v ssa.Value, d int) bool {
+				if d > 6 {
+					return false
+				}
+				switch x := v.(type) {
+				case *ssa.Parameter:
+					return x == mPar
+				case *ssa.TypeAssert:
+					return fromM(x.X, d+1)
+				case *ssa.Extract:
+					return fromM(x.Tuple, d+1)
+				case *ssa.UnOp:
+					return fromM(x.X, d+1)
+				case *ssa.FieldAddr:
+					return fromM(x.X, d+1)
+				case *ssa.Field:
+					return fromM(x.X, d+1)
+				case *ssa.ChangeInterface:
+					return fromM(x.X, d+1)
+				case *ssa.MakeInterface:
+					return fromM(x.X, d+1)
+				case *ssa.Phi:
+					for _, e := range x.Edges {
+						if !fromM(e, d+1) {
+							return false
+						}
 					}
-					return true
-				})
+					return len(x.Edges) > 0
+				}
+				return false
+			}
+			for _, bl := range cf.Blocks {
+				for _, in := range bl.Instrs {
+					switch x := in.(type) {
+					case *ssa.Store:
+						if fa, ok := x.Addr.(*ssa.FieldAddr); ok && isFieldAddrOf(fa, useTree) && fromM(x.Val, 0) {
+							// the tree field of the module's node
+							if ld, ok := x.Val.(*ssa.UnOp); ok {
+								if tfa, ok := ld.X.(*ssa.FieldAddr); ok && isFieldAddrOf(tfa, tree) {
+									setsUse = true
+								}
+							}
+						}
+						if _, isCell := x.Addr.(*ssa.Alloc); isCell {
+							if ld, ok := x.Val.(*ssa.UnOp); ok && ld.Op == token.MUL && ld.X == ssa.Value(recv) {
+								copiesStruct = true
+							}
+						}
+					case *ssa.Call:
+						if x.Call.IsInvoke() && nm(x.Call.Method) == "Clone" && len(x.Call.Args) == 1 && x.Call.Args[0] == ssa.Value(mPar) {
+							if _, inLoop := loopOf(cf, bl); inLoop {
+								recurses = true
+							}
+						}
+						if x.Call.StaticCallee() == cf && len(x.Call.Args) == 2 && x.Call.Args[1] == ssa.Value(mPar) {
+							if _, inLoop := loopOf(cf, bl); inLoop {
+								recurses = true
+							}
+						}
+					}
+				}
 			}
 		}
-		cloneI := w.interfaceMethod("parse", "Node", "Clone")
-		ast.Inspect(cfd.Body, func(x ast.Node) bool {
-			if ce, ok := x.(*ast.CallExpr); ok {
-				if c := calleeOf(pp, ce); (c == cloneI || c == cl) && len(ce.Args) == 1 && objOfIdent(pp, ce.Args[0]) == mParam {
-					recurses = true
-				}
-			}
-			return true
-		})
-		copiesStruct := false
-		ast.Inspect(cfd.Body, func(x ast.Node) bool {
-			if as, ok := x.(*ast.AssignStmt); ok && len(as.Rhs) == 1 {
-				if st, ok := as.Rhs[0].(*ast.StarExpr); ok && pp.TypesInfo.TypeOf(st.X) != nil && strings.HasSuffix(pp.TypesInfo.TypeOf(st.X).String(), "parse.node") {
-					copiesStruct = true
-				}
-			}
-			return true
-		})
 		// the using tree is replaced whenever a module is given: the store to copy.useTree depends on `m != nil` only
 		{
 			cf := w.SSAFunc(w.Method("parse", "node", "Clone"))
